@@ -37,6 +37,16 @@ CHECKS = {
    note=TB + "The tensor-level re-assembly of the per-leg bijections over arbitrary partitions (fuse_element_preserved) is not proved; meta fusion, mask/union logic for "
         "mismatched histories and block() are tied by oracles only.",
    technique="Lean 4 proof (index bijections, charge rule) + element-position correspondence + exact oracles", design="§5 C03"),
+ "C04": dict(
+   cat="proof",
+   text="Lean model of the charge bookkeeping of svd/qr (_meta_svd/_meta_qr four-way case split for the connecting charge). 13 theorems for every symmetry in canonical shape, all "
+        "signatures, both nU and every block obeying the selection rule: blocks of U and V obey the selection rule with exactly the promised charges, S has charge 0, the "
+        "connecting charge is canonical and INJECTIVE on matrix blocks (no cross terms in U@S@V / Q@R). Tie: exact structure correspondence of real factors (blocks, charges) vs "
+        "the model, plus oracles on the real code: charge of each factor, signature/position of the new leg, leg order, is_consistent; numerical contracts validated per run to "
+        "1e-10: reconstruction, U/Q isometric, V co-isometric, eig bi-orthonormal, S non-negative descending and equal to numpy's spectrum, R upper triangular with non-negative diagonal.",
+   note=TB + "LAPACK per-block factorisations are ASSUMED contracts validated numerically on every run (partial proof: assembly logic proved, numerics validated). Low-rank/"
+        "randomised policies are not covered. eigh/eig structure is covered by oracles only.",
+   technique="Lean 4 proof of factor charge structure + validated numerical contracts", design="§5 C04"),
  "C05": dict(
    cat="proof",
    text="29 Lean theorems: swap sign formula, involution, bosonic identity, bosonic components ignored, pair symmetry; sign_canonical_order == inversion parity for "
@@ -46,6 +56,15 @@ CHECKS = {
         "correspondence, value of real ncon/einsum for every contraction order vs dense reference, fkron vs NumPy Jordan-Wigner matrices and CAR.",
    note=TB + "Planner invariance is validated per network, not proved for all networks. Two genuine planner defects are recorded as known findings.",
    technique="Lean 4 proof (sign algebra) + translation validation of planner output + dense oracles", design="§5 C05"),
+ "C06": dict(
+   cat="proof",
+   text="26 Lean theorems about a dense, symmetry-agnostic MPS/MPO model over any commutative ring, for every N and bond profile: toVec of a sum with amplitudes (block direct sum), "
+        "scalar multiplication with modulus/phase split, MPO-MPS and MPO-MPO products with Kronecker-fused bonds (factors multiply), conj/transpose/conjugate-transpose, product "
+        "states, and the environment recursion of measure_overlap equals the inner product of the dense vectors. Tie: expression DAGs over 21 operation kinds on real MPS/MPO with "
+        "integer data in 14 local-space/symmetry universes; every node compared with NumPy arithmetic on the leaves (exact below 2^52) and with the compiled Lean model; "
+        "measure_overlap/measure_mpo (single, sums, periodic), Env.measure at every bond, mps_from_tensor, zipper, compression_ without truncation.",
+   note=TB + "measureMpo_eq incl. periodic closure, closing the environment at an arbitrary bond and reverse_sites are partial (model + correspondence only); zipper/compression are oracle only.",
+   technique="Lean 4 proof on a dense MPS model + exact dense oracles", design="§5 C06"),
  "C07": dict(
    cat="proof",
    text="36 Lean theorems: operator tables REGENERATED from yastn/operators/*.py each run (17 class x symmetry tables, exact entries incl. sqrt2) with on-site (anti)commutation "
@@ -65,6 +84,32 @@ CHECKS = {
         "refolded exactly by the model).",
    note=TB + "QR/SVD are contracts validated numerically; that a local truncation acts as a nested projector is a hypothesis validated per cut; norm_eq over a whole chain is partial.",
    technique="Lean 4 proof (state machine, fold, nested projections) + trace correspondence + dense oracles", design="§5 C08"),
+ "C09": dict(
+   cat="proof",
+   text="Lean schedule/environment-freshness model of dmrg_: for every N>=1, every sequence of methods over the sweeps, precompute on/off, canonical or not: every Heff/measure event "
+        "reads only present and FRESH environments (dmrg_reads_fresh), exit state (pC none, edge environments fresh), the last event is the measure giving the reported energy, exit "
+        "gauge. Tie: event traces of real dmrg_ runs (run-time wrapping, no source hooks) vs the model trace and the stamp checker; oracles on real results vs dense references: "
+        "normalised/canonical/sector, E == <psi|H|psi>, E >= lambda_min(sector), monotone sweeps, eigenstate at convergence, projectors, sums of MPOs, precompute on/off.",
+   note=TB + "Variational bound, monotonicity, convergence and penalty behaviour are numerical facts checked by oracles, not proved; eigs is a validated contract. Known finding: '2site' never renormalises.",
+   technique="Lean 4 proof of schedule/freshness logic + trace correspondence + dense oracles", design="§5 C09"),
+ "C10": dict(
+   cat="proof",
+   text="13 Lean theorems: half sweeps of '1site', '2site' and '12site' (under ANY enlarge_bond oracle) are overlap chains with backward updates exactly on the intersections, "
+        "palindromic; all reads fresh; exit state; exact characterisation of steps/ds over Q; fourth-order identities for every s and bounds for the literal s2 REGENERATED from "
+        "_tdvp.py by a translator (|4 s^3+(1-4s)^3| < 1e-19); ncv memory keys disjoint. Tie: event traces of real tdvp_ runs vs the model, time grids vs an exact Fraction "
+        "reference, oracles vs scipy expm at maximal bond dimension (real/imaginary/complex u, 2nd/4th order), norm/energy conservation, sector, reported times.",
+   note=TB + "Norm/energy conservation and full-manifold exactness (Lubich-Oseledets) are observed by oracles, not proved. Interpretive decisions (canonical input, 'maximal' bond "
+        "dimension for 1site in unbalanced sectors) are in the evidence notes and DESIGN §7.",
+   technique="Lean 4 proof of sweep/time logic + translator for literals + trace correspondence + expm oracle", design="§5 C10"),
+ "C11": dict(
+   cat="proof",
+   text="42 Lean theorems (Mathlib matrix exponential, R and C, ALL parameter values): exp of sums of orthogonal idempotents; the closed forms of the occupation, field, Ising, "
+        "hopping and Coulomb gates equal exp(-step*H) for the integer Jordan-Wigner matrices of the model (which are proved to be the JW products and to satisfy the CAR) and for "
+        "any matrices satisfying the defining relation (checked exactly on the real operators each run); generic exponentials under the eigh contract; decomposition under the SVD "
+        "contract. Tie: every gate constructor in every symmetry variant vs scipy expm of an independent NumPy JW Hamiltonian and vs the Lean closed forms; apply_gate_ on finite PEPS "
+        "(<=6 sites, cylinders, ancillas, all bond directions/orientations) vs a dense fermionic reference after every gate; DoublePepsTensor.tensordot vs fuse_layers; sums of PEPS.",
+   note=TB + "apply_gate_onsite/to_tensor swap schedules and the corner contractions are compared with the dense specification, not proved (partial).",
+   technique="Lean 4 proof (matrix exponential closed forms) + dense Jordan-Wigner oracles", design="§5 C11"),
  "C13": dict(
    cat="proof",
    text="34 Lean theorems about an exact model of truncation_mask (two-stage block/global selection, strict >, per-sector dictionaries): limits respected, "
